@@ -50,6 +50,9 @@ def mk_case(lens, rs, cs=None, has_cs=False, vk="scalar", dtype="int64", recv="f
             "hostile": bool(hostile and np.dtype(dtype).kind == "f")}
 
 
+MASK_RECVS = ["lazyrows", "lazycols+2", "lazycols-1", "lazychain", "ufunc", "deepcopy", "pickle", "copy-of-lazy", "saveload", "concat", "readonly", "subclass", "was-argument", "unsafe"]
+
+
 def mk_mask_case(lens, mask, vk="scalar", dtype="int64"):
     return {"lens": list(lens), "mask": [bool(b) for b in mask], "vk": vk, "dtype": dtype}
 
@@ -371,7 +374,10 @@ def run_mask(case):
         for k, (i, j) in enumerate(hit):
             exp[i][j] = vals[k]
     ra = RA(np.array([v for r in pyrows for v in r], dtype=dt), list(lens))
-    mask = RA(m.copy(), list(lens))
+    # the mask may itself be derived: an unmaterialised selection of a larger boolean array, the result of a ufunc, a copy, ... (case["maskrecv"])
+    mrecv = case.get("maskrecv", "fresh")
+    mask, mask_parent = c02.build_receiver(mrecv, m.copy(), list(lens))
+    tags = tags + ["maskrecv:" + mrecv]
     by_rows = gen.id_rows(lens, base=500000)
     bystander = RA(np.array([v for r in by_rows for v in r], dtype=dt), list(lens))
     CTX.tick("c03:footprint", len(hit) > 0)
@@ -388,7 +394,26 @@ def run_mask(case):
 
 # ----------------------------------------------------------------------------- workloads
 
+def longrow_cases():
+    """assignments into a few rows of thousands / millions of cells through every kind of column slice (see c02.longrow_cases)"""
+    for lens in c02.LONGROW_SHAPES:
+        n = len(lens)
+        big = max(lens) > 100000
+        for ci, cs in enumerate(c02.LONGROW_COLS):
+            for ri, rs in enumerate((slice(None), [n - 1, 0], 0)):
+                for vi, vk in enumerate(("scalar", "flat", "colvec", "ragged")):
+                    if rs == 0 and vk in ("colvec", "ragged"):
+                        continue
+                    if big and (ci + ri + vi) % 3:
+                        continue
+                    yield mk_case(lens, rs, cs, True, vk, "int64" if (ci + vi) % 2 else "float64")
+                    if not big and (ci + ri + vi) % 4 == 0:
+                        yield mk_case(lens, rs, cs, True, vk, "int64", ("lazyrows", "lazycols+2", "lazychain", "ufunc")[(ci + ri) % 4])
+
+
 def directed():
+    for c in longrow_cases():
+        yield c
     writable = [r_ for r_ in c02.RECVS[1:] if r_ != "readonly"]
     q = 0
     for c in _directed():
@@ -462,6 +487,8 @@ def _directed():
     for lens, mask in [([3, 1, 0, 2], [1, 0, 1, 1, 0, 1]), ([3, 1, 0, 2], [0] * 6), ([3, 1, 0, 2], [1] * 6), ([0, 0], []), ([], []), ([0, 4, 0], [0, 1, 1, 0])]:
         for vk in ("scalar", "flat"):
             yield mk_mask_case(lens, mask, vk)
+            for mr in MASK_RECVS:
+                yield dict(mk_mask_case(lens, mask, vk), maskrecv=mr)
 
 
 def sweep(tier):
@@ -521,7 +548,10 @@ def random_case(rng, tier, lens=None, plain=False):
         dtype = "float64"       # the cell ids (1000 * row + column + 1) of this many rows are not exactly representable in float32
     if not plain and rng.random() < 0.12:
         p = rng.choice([0.0, 0.3, 0.6, 1.0])
-        return mk_mask_case(lens, [rng.random() < p for _ in range(sum(lens))], rng.choice(["scalar", "flat"]), dtype)
+        c = mk_mask_case(lens, [rng.random() < p for _ in range(sum(lens))], rng.choice(["scalar", "flat"]), dtype)
+        if rng.random() < 0.5:
+            c["maskrecv"] = rng.choice(MASK_RECVS)
+        return c
     for _ in range(20):
         rs = c02.random_selector(rng, n, allow_oob=False)
         is_list = isinstance(rs, (list, np.ndarray)) and not (isinstance(rs, np.ndarray) and rs.dtype == bool) and not (isinstance(rs, list) and rs and isinstance(rs[0], bool))
